@@ -46,6 +46,9 @@ func checkC09(ctx *Ctx, r *Report) {
 		c08RuneLengths(ctx, r, ts)
 	}
 	c17MergedPathsPrefixed(ctx, r)
+	c09TypedConstantSetup(ctx, r)
+	c09UnfoldAccumulators(ctx, r)
+	c09ConstraintsThroughReferences(ctx, r)
 }
 
 // (1a) order of derivation, veneers, nil checks
@@ -844,4 +847,128 @@ func c09RatExactness(ctx *Ctx, r *Report) {
 	}
 	r.Count("conversions of rational bounds", n)
 	r.Floor("conversions of rational bounds", 1)
+}
+
+// c09TypedConstantSetup: when the target of a constant assignment is optional, the Go builder template first declares a
+// variable holding the constant (`valX := …`) and assigns its address. The declared literal must carry the field's type
+// for numeric kinds: an untyped `42` makes the variable an `int`, whose address is not a `*int64`. The helper that prints
+// it (the FuncMap entry "formatValue" of the builder jenny) must have a numeric case that mentions the scalar kind.
+func c09TypedConstantSetup(ctx *Ctx, r *Report) {
+	p := ctx.Pkg("internal/jennies/golang")
+	if p == nil {
+		return
+	}
+	var lit *ast.FuncLit
+	for _, f := range p.Syntax {
+		ast.Inspect(f, func(n ast.Node) bool {
+			if kv, ok := n.(*ast.KeyValueExpr); ok {
+				if bl, ok := kv.Key.(*ast.BasicLit); ok && bl.Value == `"formatValue"` {
+					if fl, ok := kv.Value.(*ast.FuncLit); ok && strings.HasSuffix(ctx.Fset.Position(fl.Pos()).Filename, "/builder.go") {
+						lit = fl
+					}
+				}
+			}
+			return true
+		})
+	}
+	if lit == nil {
+		r.Undecided("anchor lost: the formatValue template function of the Go builder jenny")
+		return
+	}
+	typed := false
+	ast.Inspect(lit.Body, func(m ast.Node) bool {
+		is, ok := m.(*ast.IfStmt)
+		if !ok || !strings.Contains(exprString(is.Cond), "IsNumeric()") {
+			return true
+		}
+		ast.Inspect(is.Body, func(q ast.Node) bool {
+			if s, ok := q.(*ast.SelectorExpr); ok && s.Sel.Name == "ScalarKind" {
+				typed = true
+			}
+			return true
+		})
+		return true
+	})
+	r.Count("constant formatters of the Go builder jenny", 1)
+	r.Check(typed, "skeleton/go-typed-constant-setup", "golang builder formatValue numeric case", lit.Pos(), "numeric constants are printed with their kind",
+		"the Go builder prints the constant assigned through `valX := …; &valX` as an untyped literal: for a numeric field the variable is an int / float64 and `&valX` is not a *int64 — the generated builder does not compile (`version?: 42`)")
+}
+
+// c09UnfoldAccumulators: the Go template that unfolds collections of builders recurses with `ResultVar` naming the
+// variable the nested expansion appends to / assigns. Wherever it recurses with a `…Depth<d>` result variable, that
+// variable must have been declared (`…Depth<d> := make(…)`) in the same list before the call — the array branch does, the
+// map branch did not: `undefined: groupsDepth1`.
+func c09UnfoldAccumulators(ctx *Ctx, r *Report) {
+	ts, err := loadTemplates(ctx, "golang")
+	if err != nil {
+		r.Undecided("cannot parse golang templates: %v", err)
+		return
+	}
+	tree := ts.trees["unfold_builders"]
+	if tree == nil {
+		r.Undecided("anchor lost: template unfold_builders")
+		return
+	}
+	n := 0
+	var visit func(l *parse.ListNode)
+	visit = func(l *parse.ListNode) {
+		if l == nil {
+			return
+		}
+		text := ""
+		for _, nd := range l.Nodes {
+			switch x := nd.(type) {
+			case *parse.TextNode:
+				text += string(x.Text)
+			case *parse.ActionNode:
+				text += "⟦" + x.Pipe.String() + "⟧"
+			case *parse.IfNode:
+				visit(x.List)
+				visit(x.ElseList)
+			case *parse.RangeNode:
+				visit(x.List)
+			case *parse.TemplateNode:
+				if x.Name != "unfold_builders" {
+					continue
+				}
+				res := dictArgs(x.Pipe)["ResultVar"]
+				if !strings.Contains(res, "Depth") {
+					continue
+				}
+				n++
+				declared := regexp.MustCompile(`Depth⟦\.Depth⟧\s*:=\s*make\(`).MatchString(text)
+				r.Check(declared, "skeleton/unfold-accumulator-declared", fmt.Sprintf("unfold_builders recursive call #%d", n), token.NoPos, "the result variable of the nested expansion is declared before the call",
+					ts.file["unfold_builders"]+": unfold_builders recurses with ResultVar "+res+" without having declared that variable in the branch: the nested expansion appends to an undeclared name — the generated builder does not compile (map of lists of builders)")
+			}
+		}
+	}
+	visit(tree.Root)
+	r.Count("recursive calls of unfold_builders with a depth-named result", n)
+	r.Floor("recursive calls of unfold_builders with a depth-named result", 2)
+}
+
+// c09ConstraintsThroughReferences: Python options check the constraints the *assignment* carries (Go relies on the
+// Validate() of the built type). FieldAssignment copies the constraints of the field's own scalar type only: a field
+// typed by a reference to a constrained scalar (`name: #Name`, `#Name: string & MaxRunes(5)`), or a list of constrained
+// scalars, yields an assignment without constraints — the Python option accepts the violating argument silently.
+func c09ConstraintsThroughReferences(ctx *Ctx, r *Report) {
+	fn := ctx.LookupFunc("internal/ast", "FieldAssignment")
+	fd, p := ctx.DeclOf(fn)
+	if fd == nil {
+		r.Undecided("anchor lost: ast.FieldAssignment")
+		return
+	}
+	info := p.TypesInfo
+	resolves := false
+	ast.Inspect(fd.Body, func(m ast.Node) bool {
+		if c, ok := m.(*ast.CallExpr); ok {
+			if f := callee(info, c); f != nil && (strings.HasPrefix(f.Name(), "Resolve") || strings.HasPrefix(f.Name(), "Locate")) {
+				resolves = true
+			}
+		}
+		return true
+	})
+	r.Count("derivations of assignment constraints", 1)
+	r.Check(resolves, "derive/constraints-through-references", "ast.FieldAssignment constraints", fd.Pos(), "the constraints of the type the field refers to are carried by the assignment",
+		"FieldAssignment copies constraints only when the field's own type is a scalar: it never looks through a reference (nor into list / map elements) — Python: `name(\"toolong\")` on `name: #Name` with `#Name: string & strings.MaxRunes(5)` is accepted silently, while the same constraint written inline raises ValueError")
 }
